@@ -34,9 +34,15 @@ func upperMin(max time.Duration) time.Duration {
 
 func c05Direct(out *vfh.Out, i int, min, max time.Duration, draw int64) {
 	src := &scripted{vals: []int64{draw}}
+	c := new(vfh.Toks).S("md").N(i).I(int64(min)).I(int64(max)).I(draw).String()
+	// "Choosing the wait never fails": a panic is an observation, not a crash of the harness.
+	defer func() {
+		if p := recover(); p != nil {
+			out.Line(c, "panic")
+		}
+	}()
 	d := multicastDelay(rand.New(src), i, min, max)
-	out.Line(new(vfh.Toks).S("md").N(i).I(int64(min)).I(int64(max)).I(draw).String(),
-		new(vfh.Toks).I(int64(d)).String())
+	out.Line(c, new(vfh.Toks).I(int64(d)).String())
 }
 
 func genDraw(r *vfh.Rand, min, max time.Duration) int64 {
